@@ -605,6 +605,20 @@ public:
             const XalanDOMString&   theName,
             const Locator*          locator);
 
+    /**
+     * Remove any attribute with the same local name as the given one and a
+     * different prefix that is bound to the same namespace in the result.
+     *
+     * @param attList The attribute list.
+     * @param aname The qualified name of the attribute.
+     * @param theColonIndex The index of the colon in aname.
+     */
+    void
+    removeAttributeWithOtherPrefix(
+            AttributeListImpl&          attList,
+            const XalanDOMString&       aname,
+            XalanDOMString::size_type   theColonIndex);
+
     void
     setDocumentLocator(const Locator*   locator);
 
